@@ -447,7 +447,7 @@ def run_sessions(ctx, obs, meta):
         ctx.mc('MC_JoinSess', 'MC_JoinSess_memo.cfg', coverage=False, must_fail='SessionLaw')      # why sessions with edits are enumerated
     pairs = ctx.generate('MC_JoinSess', 'MC_JoinSess_pairs.cfg' if ctx.quick else 'MC_JoinSess_pairs_t.cfg')
     pairs.sort(key=lambda h: json.dumps(h, sort_keys=True))
-    free = ctx.generate('MC_JoinSess', 'MC_JoinSess_sim.cfg', simulate=60 if ctx.quick else 1500, depth=14, seed=ctx.seed + 2, workers=1)
+    free = ctx.generate('MC_JoinSess', 'MC_JoinSess_sim.cfg', simulate=60 if ctx.quick else 500, depth=14, seed=ctx.seed + 2, workers=1)
     check_sessions(pairs + free, 'MC_JoinSess', True)
     for fam, ss in (('session_pairs', pairs), ('session_free', free)):
         for h in ss:
